@@ -65,7 +65,8 @@ pub fn map_key_range(
     key: &[W],
     n: usize,
 ) -> Result<Vec<Vec<W>>, String> {
-    if unknown_contract_errors && !m.keys().any(|(c, _)| *c == contract) {
+    // (a read of zero keys asks nothing of the state, so it cannot fail either)
+    if unknown_contract_errors && n > 0 && !m.keys().any(|(c, _)| *c == contract) {
         return Err(format!("unknown contract {:02x}", contract[0]));
     }
     let mut out = vec![];
